@@ -39,6 +39,9 @@ var junkValues = []interface{}{3.0, true, "/relative/ref", "not a uri", M{"zz-un
 func slotObserve(q interface{}) string {
 	ser, err := callSerialize(q)
 	s := strings.Join(trueKinds(q), "+") + "=" + short(ser)
+	if nm := method(q, "Name"); nm.IsValid() {
+		s += " name=" + nm.Call(nil)[0].String()
+	}
 	if err != nil {
 		s += " err=" + err.Error()
 	}
